@@ -92,6 +92,14 @@ def generate(tier, seed, work, stats):
     for _ in range(600 if tier == "quick" else 6000):
         (a, alph), (b, _) = rnd.choice(wf_pool), rnd.choice(wf_pool)
         cases.append(dict(kind="comb", toksA=a, toksB=b, alph=sorted(set(alph) | set(_)), L=3, aged=bool(len(cases) % 2)))
+    # operands whose own text is not settled by the documentation (empty text, empty group, missing right operand): the
+    # combination is judged against the language the operand itself shows
+    odd = [[], ["(", ")"], ["a", "|"], ["(", "a", "|", ")"], ["epsilon"], ["$"]]
+    plain = [["a"], ["a", "b"], ["a", "|", "b"], ["a", "*"], ["epsilon"]]
+    for x in odd:
+        for y in plain + odd:
+            for a, b in ((x, y), (y, x)):
+                cases.append(dict(kind="comb", toksA=a, toksB=b, alph=["a", "b", "zz"], L=3, aged=bool(len(cases) % 2)))
     return cases
 
 
